@@ -112,13 +112,17 @@ func readOverlay(path string) map[string][]byte {
 }
 
 func runCheck(id, tier string, overlay map[string][]byte) (code int) {
+	return runCheckEnv(id, tier, &Env{overlay: overlay, progs: map[string]*Program{}, models: map[string]*Model{}, Tier: tier})
+}
+
+// runCheckEnv runs one check in a (possibly shared) environment: checkall loads each repo module once.
+func runCheckEnv(id, tier string, e *Env) (code int) {
 	f, ok := checks[id]
 	if !ok {
 		fmt.Fprintf(os.Stderr, "no check registered for %s\n", id)
 		return 2
 	}
 	c := NewCtx(id, tier)
-	e := &Env{overlay: overlay, progs: map[string]*Program{}, models: map[string]*Model{}, Tier: tier}
 	func() {
 		defer func() {
 			if r := recover(); r != nil {
@@ -183,6 +187,32 @@ func main() {
 			tier = "quick"
 		}
 		os.Exit(runCheck(pos[1], tier, overlay))
+	case "checkall":
+		// checkall <id,id,…|all> [tier]: several checks in one process, one load per repo module
+		if len(pos) < 2 {
+			usage()
+		}
+		tier := "quick"
+		if len(pos) >= 3 && pos[2] == "thorough" {
+			tier = "thorough"
+		}
+		var ids []string
+		if pos[1] == "all" {
+			for id := range checks {
+				ids = append(ids, id)
+			}
+		} else {
+			ids = strings.Split(pos[1], ",")
+		}
+		sort.Strings(ids)
+		e := &Env{overlay: overlay, progs: map[string]*Program{}, models: map[string]*Model{}, Tier: tier}
+		worst := 0
+		for _, id := range ids {
+			if rc := runCheckEnv(id, tier, e); rc > worst {
+				worst = rc
+			}
+		}
+		os.Exit(worst)
 	case "replay":
 		if len(pos) < 2 {
 			usage()
